@@ -203,5 +203,28 @@ _PA_IND = ("phaseacc-ind", "apalache/PhaseAccInd.tla",
            [["--init=Init", "--inv=IndInv", "--length=0"], ["--init=IndInit", "--inv=IndInv", "--length=1"]], QT)
 PROPS["C02"]["apalache"] = [_PA_IND]
 PROPS["C17"]["apalache"] = [_PA_IND]
+# the press logic of the ribbon for every (settling count, capacity) (Apalache, inductive invariant)
+_RIB_IND = ("ribbon-gate-ind", "apalache/RibbonGateInd.tla",
+            [["--init=Init", "--inv=IndInv", "--length=0"], ["--init=IndInit", "--inv=IndInv", "--length=1"]], QT)
+PROPS["C15"]["apalache"] = [_RIB_IND]
+# gate and edge latches of the MIDI voice layer for every list capacity (Apalache, inductive invariant)
+_MIDI_IND = ("midi-gate-ind", "apalache/MidiGateInd.tla",
+             [["--init=Init", "--inv=IndInv", "--length=0"], ["--init=IndInit", "--inv=IndInv", "--length=1"]], QT)
+# the one-pole step with unbounded inputs: hull (inductive) and monotone approach (action invariant)
+_GLIDE_IND = ("glide-hull-ind", "apalache/GlideHullInd.tla",
+              [["--init=Init", "--inv=IndInv", "--length=0"], ["--init=IndInit", "--inv=IndInv", "--length=1"],
+               ["--init=IndInit", "--inv=Approach", "--length=1"]], QT)
+PROPS["C13"]["apalache"] = [_GLIDE_IND]
+PROPS["C20"]["apalache"] = [("params-lemmas", "apalache/ParamsLemmas.tla", [["--init=Init", "--inv=Lemmas", "--length=0"]], QT)]
+_LFO_SHAPES = ("lfo-shapes", "apalache/LfoShapes.tla", [["--init=Init", "--inv=Shapes", "--length=0"]], QT)
+PROPS["C10"]["apalache"] = [_LFO_SHAPES]
+PROPS["C12"]["apalache"] = [_LFO_SHAPES]
+_Q_WIN = ("quant-window", "apalache/QuantWindow.tla", [["--init=Init", "--inv=Window", "--length=0"]], QT)
+PROPS["C09"]["apalache"] = [_Q_WIN]
+PROPS["C19"]["apalache"] = [_Q_WIN]
+# the memoryless rule in real units over three octaves, scale and inputs symbolic (13 minutes: thorough tier)
+PROPS["C08"]["apalache"] = [("quant-rule", "apalache/QuantRule.tla", [["--init=Init", "--inv=Inv", "--length=0"]], T)]
+PROPS["C04"]["apalache"] = [_MIDI_IND]
+PROPS["C05"]["apalache"] = [_MIDI_IND]
 
 HOOK_COMMITS = ["36838b7", "ded5069"]
